@@ -96,6 +96,9 @@ func (fs *FS) logOp(op FsOp) {
 	op.Seq = len(fs.Ops) + 1
 	fs.Ops = append(fs.Ops, op)
 	fs.opCount[op.Kind]++
+	if fs.k != nil && fs.k.TraceOn {
+		fs.k.traceFs(fmt.Sprintf("  fs #%d %s %s %s n=%d err=%s", op.Seq, op.Kind, op.Path, op.Path2, op.N, op.Err))
+	}
 	if fs.OnOp != nil {
 		fs.OnOp(&fs.Ops[len(fs.Ops)-1])
 	}
